@@ -237,8 +237,20 @@ def classify(text: str):
         return strict
     lenient = run(True)
     if lenient[0] == WELL_FORMED:
-        return (UNSPECIFIED, "well-formed only if a dataless start tag is read as an empty data element: " + strict[1])
+        return (UNSPECIFIED, "well-formed only if a dataless start tag is read as an empty data element: " + strict[1], lenient[1])
     return strict
+
+
+def read_lenient(text: str):
+    """Plain tree under the strict reading, or - if only that makes it well-formed - under the reading where a
+    dataless, childless start tag is an empty element without end tag (what the library's unclosed writer emits for
+    an empty aggregate).  None if neither reading is well-formed."""
+    v = classify(text)
+    if v[0] == WELL_FORMED:
+        return v[1]
+    if v[0] == UNSPECIFIED and len(v) == 3:
+        return v[2]
+    return None
 
 
 def leaves(tree, path=""):
